@@ -79,6 +79,7 @@ def generate(rng, tier):
     out += sc.gen_broad(rng, 150 * n)
     out += sc.gen_hookraise(rng, 80 * n)
     out += sc.gen_manual(rng, 60 * n)
+    out += sc.gen_enter_effects(rng, 60 * n)
     return out
 
 
